@@ -475,4 +475,27 @@ theorem lookup_renTop_new {α : Type} (x y : String) (l : List (String × α)) (
       have h2 : (x == k) = false := by simpa using (fun h => hk h.symm)
       simp [List.lookup_cons, h1, h2, ih hy.2]
 
+theorem renTop_roundtrip {α : Type} (x y : String) (l : List (String × α)) (hy : y ∉ l.map (·.1)) :
+    renTop y x (renTop x y l) = l := by
+  induction l with
+  | nil => rfl
+  | cons e t ih =>
+    obtain ⟨k, v⟩ := e
+    simp only [List.map_cons, List.mem_cons, not_or] at hy
+    simp only [renTop]
+    split
+    · rename_i hk
+      simp [renTop, hk]
+    · rename_i hk
+      have : ¬ k = y := fun e => hy.1 e.symm
+      simp [renTop, this, ih hy.2]
+
+theorem typeInfo_rename_roundtrip (x y : String) (ti : TypeInfo)
+    (hi : y ∉ ti.ins.map (·.1)) (ho : y ∉ ti.outs.map (·.1)) :
+    (ti.renameCallable x y).renameCallable y x = ti := by
+  cases ti with
+  | mk structs ins outs =>
+    simp only [TypeInfo.renameCallable]
+    rw [renTop_roundtrip x y ins hi, renTop_roundtrip x y outs ho]
+
 end Proofs.RefactorGraph
